@@ -252,6 +252,16 @@ def unit_twice(kind):
             "entries": {"eval_root": {"kind": "eval", "fn": "root"}}, "eps": [{"id": "A", "kind": "lit_arg", "n": 2, "values": ["1", "3"]}]}
 
 
+def unit_default_twice():
+    """K(x, y=<A>) kept once with y omitted and once with the old default spelled out; the default is the edit point"""
+    funcs = [{"name": "K", "module": "main", "params": [["x", None], ["y", "@A"]], "body": []},
+             {"name": "root", "module": "main", "params": [], "body": [
+                 {"k": "keep", "path": "/t/a", "fn": "K", "args": [{"lit": "7"}]},
+                 {"k": "keep", "path": "/t/b", "fn": "K", "args": [{"lit": "7"}, {"lit": "1"}]}]}]
+    return {"id": "U/arg/default_twice", "key": "arg|kind=default_twice|type=int", "modules": ["main"], "vars": [], "funcs": funcs,
+            "entries": {"eval_root": {"kind": "eval", "fn": "root"}}, "eps": [{"id": "A", "kind": "default_value", "n": 2, "values": ["1", "2"]}]}
+
+
 def unit_structural(kind):
     """edits outside every cone: unrelated definitions, reordering, comments"""
     var = {"name": "V0", "module": "main", "values": ["1"]}
@@ -288,6 +298,7 @@ def unit_programs(level="quick"):
     out += [unit_structural(k) for k in ("unrel", "reorder", "cmt_other")]
     out.append(unit_untracked_obj())
     out += [unit_twice(k) for k in ("x", "x_default", "x_lit")]
+    out.append(unit_default_twice())
     return out
 
 
